@@ -8,9 +8,10 @@ import (
 
 func TestVerifReplay(t *testing.T) {
 	vrt.RunReplay(t, map[string]func(){
-		"VerifC04Quick":    VerifC04Quick,
-		"VerifC04Thorough": VerifC04Thorough,
-		"VerifC04Truncate": VerifC04Truncate,
-		"VerifC04Refused":  VerifC04Refused,
+		"VerifC04Quick":         VerifC04Quick,
+		"VerifC04Thorough":      VerifC04Thorough,
+		"VerifC04Truncate":      VerifC04Truncate,
+		"VerifC04Refused":       VerifC04Refused,
+		"VerifC04TruncateTwice": VerifC04TruncateTwice,
 	})
 }
